@@ -13,6 +13,8 @@
  R6 Dublin/IPv6 payload slice derived from the sequence offset fits the packet buffer.
  R7 two-round separation: a wrap can only re-open numbers of the immediately preceding round if
     MAX_INITIAL_SEQUENCE > MAX_SEQUENCE − 2·BUFFER_SIZE (general regime) / always in the Dublin-IPv6 regime.
+ C02.R1 (imported): the sequence recovered from a response is the sequence that was sent, per configuration cell (a decode that folds two sequences of a round onto each
+    other makes them one probe); C02's known findings (F19) are listed under the imported keys.
 Not decided: long-run behaviour beyond these (inductive) invariants.
 """
 import re
